@@ -41,7 +41,12 @@ def run(ctx):
         for k, v in j["args"].items():
             cmd += ["--" + k, str(v)]
         cmd += ["--out", j["out"]]
-        p = core.sh(cmd, timeout=2400, env=j.get("env"))
+        import subprocess
+        class _T: returncode = -14; stderr = b"timeout"
+        try:
+            p = core.sh(cmd, timeout=300 if j["args"].get("mode") == "free" else 900, env=j.get("env"))
+        except subprocess.TimeoutExpired:
+            p = _T()
         if p.returncode != 0:     # (sched mode: the parent only forks and waits; if it dies, a concurrent library run took it down, e.g. by exhausting memory)
             # the free-running programs are not forked (TSan stops analysing after a fork): a halted process is the Crash event
             j["stderr"] = p.stderr.decode(errors="replace")[-3000:]
@@ -102,15 +107,22 @@ def replay_rec(rec):
     for k, v in a.items():
         cmd += ["--" + k, str(v)]
     cmd += ["--out", out]
-    p = core.sh(cmd, timeout=2400, env=rec["harness"].get("env"))
-    if p.returncode != 0 and a.get("mode") == "free":
+    import subprocess
+    class _T: returncode = -14
+    try:
+        p = core.sh(cmd, timeout=300 if a.get("mode") == "free" else 900, env=rec["harness"].get("env"))
+    except subprocess.TimeoutExpired:
+        p = _T()
+    if p.returncode != 0:
         with open(out, "a") as f:
             f.write(json.dumps({"e": "Crash", "sig": -p.returncode, "case": {"free": a}}) + "\n")
     res = core.validate_traces("ThreadsTrace", "ThreadsTrace.cfg", [out])
     return any(fl["clause"] == rec["clause"] for _, r in res for fl in r.fails)
 
 def confirm(rec):
-    return replay_rec(rec)
+    # a failure that depends on the interleaving need not repeat at once: the single run is repeated up to 4 times
+    # (on the unchanged tree no run ever fails, so repetition cannot create an alarm)
+    return any(replay_rec(rec) for _ in range(4))
 
 def replay(path, seed):
     rec = json.load(open(path))
